@@ -11,7 +11,7 @@ META = {
         "state is rewritten before returning; R2 tag tables: per codec pair, the tag an encoder writes for a variant is a tag the decoder maps "
         "back to that variant, and unknown tags end in Err; R4 tainted length arithmetic: a 64-bit length read from the wire never enters an "
         "unchecked +,* or - nor a split/advance length without a dominating bound (a corrupt length must give an error, not a panic); "
-        "R5 panic audit of the decode bodies; R6 discard accounting: when a decoder drops the buffered part of a body it measures the dropped size before clearing the buffer; R7 bytes split off for the following frames are put back on every exit; R8 a delegating decoder waits for a header only at a frame boundary; R9 a size test against a length read through a peek cursor is made on the cursor or adds the peeked header size; R10 abandoning a frame on an error skips every outstanding part recorded in the state."),
+        "R5 panic audit of the decode bodies; R6 discard accounting: when a decoder drops the buffered part of a body it measures the dropped size before clearing the buffer; R7 bytes split off for the following frames are put back on every exit; R8 a delegating decoder waits for a header only at a frame boundary; R9 a size test against a length read through a peek cursor is made on the cursor or adds the peeked header size; R10 abandoning a frame on an error skips every outstanding part recorded in the state; R11 whole-frame decoders consume the frame before validating it."),
     "does_not_decide": "equality of decoded and encoded messages for all values (bodies are Recon, C09); silently wrong messages produced by mutated valid streams inside a body",
 }
 
@@ -267,6 +267,28 @@ def run(ctx):
                     r.check(unknown_err, "%s/%s/unknown-tag-is-error" % (cn.split("_", 1)[1], dec_name), where(db), "an unknown tag reaches an Err result", "an unknown tag does not end in an error")
         if pairs < 4:
             raise AnchorMissing("only %d encoder/decoder pairs with tag tables were recognised" % pairs)
+
+    with ctx.rule("C10.R2b", "T5", "routed messages: each direction accepts exactly its own four tags; any other tag is an error", floor=3) as r:
+        ms = ctx.crate("swimos_messages")
+        want = {"RequestMessageDecoder": {"LINK", "SYNC", "UNLINK", "COMMAND"}, "RawRequestMessageDecoder": {"LINK", "SYNC", "UNLINK", "COMMAND"}, "RawResponseMessageDecoder": {"LINKED", "SYNCED", "UNLINKED", "EVENT"}}
+        consts = {nm: ms.const("protocol::" + nm)["v"] for nm in ("LINK", "SYNC", "UNLINK", "COMMAND", "LINKED", "SYNCED", "UNLINKED", "EVENT")}
+        r.check(len(set(consts.values())) == 8, "messages/tags-distinct", "-", "the eight operation tags are distinct (%s)" % sorted(consts.values()))
+        for b in ms.all_bodies():
+            nm = (b.meta.get("self_adt") or "").split("::")[-1]
+            if b.meta.get("name") != "decode" or nm not in want:
+                continue
+            ctx.saw(b)
+            sw = [sb for sb in range(b.n) if not b.is_cleanup(sb) and b.term(sb)["k"] == "switch" and switch_desc(b, sb).startswith("Shr(BitAnd(get_u64(")]
+            if len(sw) != 1:
+                raise AnchorMissing("%s: switch on the operation tag (found %d)" % (nm, len(sw)))
+            t = b.term(sw[0])
+            arms = {int(v) for v, _ in t["arms"]}
+            r.check(arms == {consts[x] for x in want[nm]}, "%s/explicit-arms" % nm, b.loc(t.get("line")), "explicit arms for %s" % sorted(want[nm]), "the tag match has arms for %s, expected %s" % (sorted(arms), sorted(consts[x] for x in want[nm])))
+            reach = b.reachable_from([t["otherwise"]])
+            errs = {i for i, j, p, rv, line in b.assigns() if describe_rvalue(b, rv).startswith("Result::Err(")}
+            oks = {i for i, j, p, rv, line in b.assigns() if describe_rvalue(b, rv).startswith("Result::Ok(Option::Some(")}
+            r.check(bool(reach & errs) and not (reach & oks), "%s/other-tag-is-an-error" % nm, b.loc(t.get("line")), "a tag of the other direction (or a corrupt one) is rejected",
+                    "a frame with any other tag is accepted as a message (a response tag on the request channel decodes as a command, and vice versa): a corrupt tag gives a silently wrong message")
 
     with ctx.rule("C10.R4", "T7", "a 64-bit length read from the wire never enters unchecked arithmetic or a split/advance length without a dominating bound", floor=5) as r:
         n = 0
@@ -576,6 +598,44 @@ def run(ctx):
                     r.check(not miss2, "%s/%s/skip-now-covers-all-outstanding-parts" % (tag, arm[0]), x.loc(), "advance(%s)" % a[:60], "on an error in state %s the decoder advances by `%s`, ignoring %s" % (arm[0], a[:70], miss2))
         if n < 3:
             raise AnchorMissing("expected >= 3 error exits into a Discarding state, found %d" % n)
+
+    with ctx.rule("C10.R11", "T1", "whole-frame decoders take the frame out of the buffer before validating any of it", floor=4) as r:
+        # A decoder without resumable state waits until the whole frame is buffered. If it then reports an error after having
+        # consumed only part of the frame, the rest of that frame is read as the next header. So: once consumption has started,
+        # no fallible step (a branch whose one edge returns Err) may be followed by further consumption of src.
+        n = 0
+        for c, b in decs:
+            tag = (b.meta.get("self_adt") or "?").split("::")[-1]
+            stateful = any(switch_desc(b, sb) in ("disc(self.state)", "disc(take(self.state))") for sb in range(b.n) if not b.is_cleanup(sb) and b.term(sb)["k"] == "switch")
+            if stateful:
+                continue
+            cons = [x for x in b.calls if x.name in CONSUME and x.args and src_root(b, x.args[0], through_calls=False) == 2 and "Iterator" not in (x.trait or "")]
+            if len(cons) < 2:
+                continue
+            err_blocks = {i for i, j, p, rv, line in b.assigns() if describe_rvalue(b, rv).startswith("Result::Err(")}
+            err_blocks |= {x.block for x in b.calls if x.name == "from_residual"}
+            bad = []
+            for sb in range(b.n):
+                if b.is_cleanup(sb) or b.term(sb)["k"] != "switch" or not any(b.dominates(x.block, sb) for x in cons):
+                    continue
+                succs = list(dict.fromkeys(b.succ[sb]))
+                if len(succs) < 2:
+                    continue
+                for e in succs:
+                    er = b.reachable_from([e])
+                    # e is an error edge: it reaches an Err return and no further consumption
+                    if (er & err_blocks) and not any(x.block in er for x in cons):
+                        rest = b.reachable_from([o for o in succs if o != e])
+                        later = [x for x in cons if x.block in rest]
+                        if later:
+                            bad.append((sb, later[0]))
+            n += 1
+            ctx.saw(b)
+            r.check(not bad, "%s/no-consumption-after-a-fallible-step" % tag, where(b), "%d consuming calls; every check that can fail comes after the last of them" % len(cons),
+                    "a check that can return an error (line %s) is followed by further consumption of the same frame (src.%s at line %s): on that error the rest of the frame stays in the buffer and is parsed as the next frame" % (
+                        b.blocks[bad[0][0]]["t"].get("line"), bad[0][1].name, bad[0][1].line) if bad else "")
+        if n < 4:
+            raise AnchorMissing("expected >= 4 whole-frame decoders, found %d" % n)
 
 
 def _short(d):
